@@ -22,8 +22,19 @@ def execute(pid, unit_cases, run_cases, pairs=None):
     if unit_cases:
         recs = runlib.run_harness(unit_cases, mode="unit")
         lines, idx = [], []
+        # regex validity of every string occurring in an options JSON, answered by the real `regex` crate
+        cand = sorted(set(x for c in unit_cases if c["fn"] == "options" for x in json_strings(c["arg"])))
+        vrecs = runlib.run_harness([{"id": i, "fn": "regex_valid", "arg": x} for i, x in enumerate(cand)], mode="unit")
+        valid = [x for x, r in zip(cand, vrecs) if r.get("res") is True]
         for i, (c, r) in enumerate(zip(unit_cases, recs)):
-            if "res" in r and not isinstance(r["res"], dict):
+            if c["fn"] == "options" and "res" in r:
+                node = json_node(c["arg"])
+                if node is None:
+                    records.append(dict(id=c["id"], kind="unit", corr="n/a", oracle="skip:not-json", case=c, sig=h(c["arg"]), nontrivial=False, detail=r))
+                    continue
+                lines.append("(optunit %s %s (valid%s))" % (enc(render_options(r["res"])), node, "".join(" " + enc(x) for x in valid)))
+                idx.append(i)
+            elif "res" in r and not isinstance(r["res"], dict):
                 res = r["res"]
                 if isinstance(res, bool):
                     res = "true" if res else "false"
@@ -82,8 +93,15 @@ def execute(pid, unit_cases, run_cases, pairs=None):
         # ---- pair oracles: two runs of the implementation on related cases
         byid = {c["id"]: (c, r) for c, r in zip(run_cases, recs)}
         plines, pmeta = [], []
+        feat_cache = {}
         for pr in (pairs or []):
             (ca, ra), (cb, rb) = byid[pr["a"]], byid[pr["b"]]
+            if pr.get("requires_not"):
+                if pr["a"] not in feat_cache:
+                    feat_cache[pr["a"]] = ast_features(ra.get("in")) if "in" in ra else {"*"}
+                fs = feat_cache[pr["a"]]
+                if "*" in fs or pr["requires_not"] in fs or (pr["requires_not"] == "pattern-match" and rb.get("patmatch")):
+                    continue
             if "out" not in ra or "out" not in rb:
                 if ("out" in ra) != ("out" in rb) and not ("parse_error" in ra or "parse_error" in rb):
                     records.append(dict(id=pr["id"], kind="pair", corr="n/a", oracle="FAIL:%s:one run produced output, the other did not" % pr["mode"],
@@ -101,6 +119,104 @@ def execute(pid, unit_cases, run_cases, pairs=None):
                                 nontrivial="_create" in (ra.get("raw_printed") or ""), detail=d,
                                 impl={"printed_a": ra.get("printed"), "printed_b": rb.get("printed")}))
     return {"records": records}
+
+
+def ast_features(m):
+    """which option-governed features a module uses (conservative: over-approximates use); from SWC's AST JSON"""
+    fs = set()
+    def attr_name(a):
+        n = a.get("name", {})
+        if n.get("type") == "JSXNamespacedName":
+            return n["namespace"]["value"] + ":" + n["name"]["value"]
+        return n.get("value", "")
+    def walk(v):
+        if isinstance(v, dict):
+            t = v.get("type")
+            if t == "JSXOpeningElement":
+                names = []
+                special = False
+                for a in v.get("attributes", []):
+                    if a.get("type") == "SpreadElement":
+                        fs.add("spread-or-repeat")
+                    else:
+                        nm = attr_name(a)
+                        names.append(nm)
+                        if nm in ("on", "nativeOn"):
+                            fs.add("on")
+                        low = nm.lower()
+                        if low.startswith("v-") or (len(nm) > 1 and nm[0] == "v" and nm[1].isupper()):
+                            special = True
+                if len(names) != len(set(names)) or (special and len(names) >= 2) or "v-models" in names:
+                    fs.add("spread-or-repeat")
+            if t == "JSXElement":
+                kids = [c for c in v.get("children", [])
+                        if not (c.get("type") == "JSXText" and c.get("value", "").strip(" \t\r\n") == "")
+                        and not (c.get("type") == "JSXExpressionContainer" and c.get("expression", {}).get("type") == "JSXEmptyExpression")]
+                if len(kids) <= 1 and any(c.get("type") == "JSXExpressionContainer" and c.get("expression", {}).get("type") in ("Identifier", "CallExpression") for c in v.get("children", [])):
+                    fs.add("sole-ident-or-call")
+            if t == "CallExpression":
+                cal = v.get("callee", {})
+                if cal.get("type") == "Identifier" and cal.get("value") == "defineComponent":
+                    fs.add("defineComponent")
+            for x in v.values():
+                walk(x)
+        elif isinstance(v, list):
+            for x in v:
+                walk(x)
+    walk(m)
+    return fs
+
+
+def json_strings(text):
+    try:
+        v = json.loads(text)
+    except Exception:
+        return []
+    out = []
+    def walk(x):
+        if isinstance(x, str):
+            out.append(x)
+        elif isinstance(x, list):
+            for y in x:
+                walk(y)
+        elif isinstance(x, dict):
+            for y in x.values():
+                walk(y)
+    walk(v)
+    return out
+
+
+def json_node(text):
+    """JSON text -> S-expression of VueJsx.Json (object entries in order, duplicates kept)"""
+    try:
+        v = json.loads(text, object_pairs_hook=lambda kvs: ("__obj__", kvs))
+    except Exception:
+        return None
+    def conv(x):
+        if x is None:
+            return "(jnull)"
+        if isinstance(x, bool):
+            return "(jbool %s)" % enc(x)
+        if isinstance(x, (int, float)):
+            return "(jnum %s)" % enc(repr(x))
+        if isinstance(x, str):
+            return "(jstr %s)" % enc(x) if x else "(jstr)"
+        if isinstance(x, tuple) and len(x) == 2 and x[0] == "__obj__":
+            return "(jobj" + "".join(" (kv %s %s)" % (enc(k), conv(val)) for k, val in x[1]) + ")"
+        if isinstance(x, list):
+            return "(jarr" + "".join(" " + conv(y) for y in x) + ")"
+        raise ValueError(x)
+    return conv(v)
+
+
+def render_options(res):
+    """same rendering as Main.lean: renderOptions"""
+    if res.get("error"):
+        return "error"
+    b = lambda x: "true" if x else "false"
+    pr = "none" if res["pragma"] is None else "(some %s)" % res["pragma"]
+    return "%s %s [%s] %s %s %s %s" % (b(res["transformOn"]), b(res["optimize"]), ", ".join(res["customElementPatterns"]),
+                                      b(res["mergeProps"]), b(res["enableObjectSlots"]), pr, b(res["resolveType"]))
 
 
 def search_failing(pid, corr_breaks, tier, seed, known_here):
@@ -480,4 +596,82 @@ PROPS["C13"] = {
                  "C13_stack_invariant_fill", "C13_fill_marks_all"],
     "cases": c13_cases,
     "explanation": "oracle: the clauses of the statement evaluated on every vnode call of the real output (flag is a union of element-level bits; without FULL_PROPS every non-constant prop except key/ref is covered by CLASS/STYLE on elements or by PROPS + the dynamic-prop list; spread/merged/computed-key props imply FULL_PROPS or no flag; the dynamic-prop list names present props only; ref/directive never with HYDRATE_EVENTS alone; `_` is 1 or 2, and 2 when a direct child - of that slot or of one reached by direct JSX nesting - is an identifier bound in the file; no hint without optimize)",
+}
+
+
+
+# ---- C14 ---------------------------------------------------------------------------------------------------
+def c14_cases(tier, seed):
+    r = gen.Rng(seed)
+    unit = []
+    keys = ["transformOn", "optimize", "mergeProps", "enableObjectSlots", "resolveType"]
+    # every subset of the boolean keys present, with every value, x pragma absent/null/name x pattern lists
+    prag = [None, "null", '"h"']
+    pats = [None, "[]", '["^x-"]', '["^x-", "custom"]', '["("]', '["a", "[z"]']
+    for mask in range(3 ** 5):
+        parts = []
+        m = mask
+        for k in keys:
+            d = m % 3; m //= 3
+            if d:
+                parts.append('"%s": %s' % (k, "true" if d == 1 else "false"))
+        for pi, p in enumerate(prag):
+            for qi, q in enumerate(pats):
+                if tier == "quick" and (mask + pi + qi) % 4 and (pi or qi):
+                    continue
+                ps = list(parts)
+                if p is not None:
+                    ps.append('"pragma": %s' % p)
+                if q is not None:
+                    ps.append('"customElementPatterns": %s' % q)
+                if (mask + pi) % 2:
+                    ps = ps[::-1]
+                unit.append({"id": "o%d" % len(unit), "fn": "options", "arg": "{" + ", ".join(ps) + "}"})
+    odd = ['null', '[]', '[true]', '[true, false, ["a"], false, false, "h", true]', '[true, false, ["a"], false, false, "h", true, 1]', '"x"', '1', 'true',
+           '{"optimize": 1}', '{"optimize": "true"}', '{"optimize": null}', '{"mergeProps": null}', '{"pragma": 1}', '{"pragma": ["h"]}',
+           '{"customElementPatterns": null}', '{"customElementPatterns": "a"}', '{"customElementPatterns": [1]}', '{"customElementPatterns": [null]}',
+           '{"transform_on": true}', '{"TransformOn": true}', '{"foo": 1}', '{"foo": {"optimize": true}}', '{"optimize": true, "optimize": false}',
+           '{"foo": 1, "foo": 2}', '{"optimize": true, "extra": [1, 2, {"a": null}], "mergeProps": false}', '{"pragma": "h", "pragma": "g"}',
+           '{"resolveType": true, "unknownOption": "x"}', '{"": true}', '{"customElementPatterns": ["\\\\d+", "a|b", "(?i)x"]}', '{"customElementPatterns": ["(?<n>a)", "a{2,1}"]}']
+    for t in odd:
+        unit.append({"id": "q%d" % len(unit), "fn": "options", "arg": t})
+    # non-interference pairs on the real code
+    run, pairs = [], []
+    hist = collections.Counter()
+    flips = [("transformOn", "on"), ("mergeProps", "spread-or-repeat"), ("enableObjectSlots", "sole-ident-or-call"),
+             ("resolveType", "defineComponent"), ("customElementPatterns", "pattern-match")]
+    srcs = [(c["id"], c["src"], c["tsx"]) for c in corpus_cases("C14") + fixture_cases()]
+    for k, prof in enumerate([GENERAL_PROFILE, PROPS_PROFILES["C01"], PROPS_PROFILES["C03"]]):
+        for i in range(budget(tier, 350, 9000)):
+            g = gen.Gen(r, dict(prof)); src = g.module(); hist.update(g.used)
+            srcs.append(("g%d_%d" % (k, i), src, False))
+    for sid, src, tsx in srcs:
+        # the base setting ranges over ALL combinations of the other options
+        base = {k: r.chance(0.5) for k in ("transformOn", "optimize", "mergeProps", "enableObjectSlots")}
+        if tsx:
+            base["resolveType"] = r.chance(0.5)
+        if r.chance(0.15):
+            base["pragma"] = "h"
+        a = {"id": sid + ":base", "src": src, "tsx": tsx, "opts": base}
+        run.append(a)
+        for key, feat in flips:
+            ob = dict(base)
+            if key == "customElementPatterns":
+                ob[key] = ["^zz-", "^Unk$", "^x-"]
+            else:
+                ob[key] = not base.get(key, False)
+            b = {"id": sid + ":" + key, "src": src, "tsx": tsx, "opts": ob}
+            run.append(b)
+            pairs.append({"id": sid + "/" + key, "mode": "same", "a": a["id"], "b": b["id"], "requires_not": feat})
+    return unit, run, {"rule": "unit: serde_json::from_str::<Options> exactly as plugin/src/lib.rs does, vs. the Lean parseOptions, on %d JSON texts (3^5 presence/value combinations of the boolean keys x pragma absent/null/name x pattern lists incl. invalid regexes [sampled 1/4 in quick beyond the first], key order varied, + wrong types, null, arrays, unknown/duplicate keys); pairs: every fixture and %d generated modules under a base option set and with each of transformOn/mergeProps/enableObjectSlots/resolveType/customElementPatterns flipped; a pair is judged (outputs must be identical) when the module does not use the governed feature (conservative syntactic classification of the parsed input)" % (len(unit), len(srcs)),
+                      "pairs": pairs, "histogram": dict(hist.most_common(30))}
+
+
+PROPS["C14"] = {
+    "theorems": ["C14_defaults", "C14_setField_frame", "C14_unknown_key_ignored", "C14_absent_keeps", "C14_invalid_pattern_rejected",
+                 "C14_transformOn_only_on", "C14_transformOn_spread", "C14_objectSlots_only_sole_ident_or_call", "C14_patterns_only_matched_tags"],
+    "cases": c14_cases,
+    "unit_clause": {"options": "options-parse"},
+    "trusted_extra": ["JSON text -> JSON value parsing (Python's json for the model side, serde_json for the implementation) is trusted; regex validity is answered by the real regex crate"],
+    "explanation": "unit correspondence = oracle for option parsing (the Lean parseOptions is the documented-defaults specification); pair oracle for non-interference on the real code",
 }
